@@ -408,6 +408,10 @@ func check(prop, tier string) int {
 	// stages run one after another; batches of a stage run in parallel
 	for _, st := range plan.Stages {
 		name := st.Engine + "/" + st.Mode
+		// development aid (trials of seeded changes on scratch copies only): run one stage
+		if only := os.Getenv("VERIF_ONLY_STAGE"); only != "" && altRepo != "" && !strings.Contains(name, only) {
+			continue
+		}
 		res := runStage(prop, tier, seed, st)
 		ag := &stageAgg{Counters: map[string]int64{}, Extra: map[string]interface{}{}, Batches: len(res)}
 		byStage[name] = ag
